@@ -460,7 +460,11 @@ func genModel(p *simkit.Plan, r *simkit.Rand, tier string) {
 		// Converge first, then one root event, then give it time.
 		c["halt_side"] = int64(r.Intn(2))
 		c["halt_kind"] = int64(r.Intn(4)) // 0 delete, 1 replace by file, 2 empty, 3 control: empty both
-		if c["halt_kind"] == 2 && r.Chance(1, 2) {
+		if c["halt_kind"] == 2 && r.Chance(1, 2) && p.Scenario == "model-halt" {
+			// (Model endpoints only: their snapshots are instantaneous, which
+			// leaves the straddling cycle as the one case without expectation;
+			// on real endpoints polling snapshots add more of them than the
+			// variant is worth.)
 			c["halt_peer_shrinks"] = 1
 		}
 		if onDisk && r.Chance(1, 2) {
@@ -1373,6 +1377,7 @@ func (h *harness) haltPhase(flush func() error) {
 	if expectHalt {
 		h.haltWatch = true
 		h.haltWatchSide = side
+		h.haltEventSeq = h.next()
 	}
 	h.mu.Unlock()
 	s.Count(fmt.Sprintf("probe.root_event_kind_%d", kind), 1)
@@ -1388,7 +1393,9 @@ func (h *harness) haltPhase(flush func() error) {
 		return
 	}
 	h.mu.Lock()
-	staleFirst := h.haltFirstScan == 2
+	// (... or the cycle under way when the event struck paired a scan of this
+	// side taken before it with a scan of the peer taken after its deletions.)
+	staleFirst := h.haltFirstScan == 2 || h.haltStraddled
 	h.mu.Unlock()
 	if expectHalt && kind == 2 && h.plan.C("halt_peer_shrinks") == 1 && staleFirst {
 		// The controller first worked from a snapshot of the struck root taken
